@@ -53,8 +53,14 @@ pub trait BatchController: Sized {
     spec fn ctl_gid(&self) -> int;
     // assumed of every controller: it only dispatches the inner dispatcher (identities of the systems inside are kept)
     fn run(&mut self, world: &World, dispatcher: &mut Dispatcher)
-        ensures final(self).ctl_runs() == old(self).ctl_runs() + 1, final(self).ctl_gid() == old(self).ctl_gid(),
-            final(dispatcher).same(old(dispatcher));
+        ensures final(self).ctl_gid() == old(self).ctl_gid(), final(self).ctl_time() == old(self).ctl_time(),
+//@if once|tl
+            final(self).ctl_runs() == old(self).ctl_runs() + 1,
+//@endif
+//@if hooks
+            final(dispatcher).same(old(dispatcher)),
+//@endif
+    ;
     fn running_time(&self) -> (r: RunningTime) ensures r == self.ctl_time();
 }
 pub trait MultiDispatchController: Sized {
@@ -65,3 +71,6 @@ pub trait MultiDispatchController: Sized {
     fn plan(&mut self, data: Self::SystemData) -> (n: usize)
         ensures n == old(self).mdc_plan(data), final(self).mdc_runs() == old(self).mdc_runs() + 1, final(self).mdc_gid() == old(self).mdc_gid();
 }
+
+// thread_pool.write().unwrap().get_or_insert_with(Self::create_thread_pool): fills the shared slot (environment; listed)
+pub fn vx_pool_fill(pool: &PoolHandle) { }
